@@ -375,6 +375,20 @@ def check_order_r_broadcast(ns, res):
             s = stats.order_stats("r", p=p, c=0.9, n=n)
             if int(s) != int(tab[i, j]):
                 msgs.append((n, "order_stats('r') broadcast entry %d != scalar %d (p=%g, c=.9, n=%d)" % (tab[i, j], s, p, n)))
+    # shapes follow numpy broadcasting exactly, also with singleton axes (a lone column or row stays 2-D)
+    col = np.array([[5], [20], [45]])
+    row = np.array([[5, 20, 45]])
+    for which, kw_col, kw_row in (("r", dict(p=0.9, c=0.9, n=col), dict(p=0.9, c=0.9, n=row)), ("n", dict(p=0.9, c=0.9, r=col[:, :1] // 5 + 1), dict(p=0.9, c=0.9, r=row // 5 + 1)),
+                                  ("p", dict(c=0.9, n=col * 3, r=2), dict(c=0.9, n=row * 3, r=2)), ("c", dict(p=0.9, n=col * 3, r=2), dict(p=0.9, n=row * 3, r=2))):
+        for nm, kw, shp in (("column", kw_col, (3, 1)), ("row", kw_row, (1, 3))):
+            got = stats.order_stats(which, **kw)
+            res.ev("order/%s/shape-%s" % (which, nm))
+            if np.shape(got) != shp:
+                msgs.append((0, "order_stats(%r) with a lone %s argument returns shape %s, numpy broadcasting gives %s" % (which, nm, np.shape(got), shp)))
+                continue
+            flat = [stats.order_stats(which, **{k: (np.ravel(v)[i] if np.ndim(v) else v) for k, v in kw.items()}) for i in range(3)]
+            if not np.allclose(np.ravel(got), flat, rtol=1e-12):
+                msgs.append((0, "order_stats(%r) %s form differs from the scalar calls" % (which, nm)))
     try:
         stats.order_stats("x", p=0.5, c=0.5, n=3)
         msgs.append((0, "order_stats('x') did not raise ValueError"))
